@@ -12,7 +12,7 @@ CLAIMS = {
         category="model_checking",
         text="spec/Pool.tla models BumpPool the way the code runs (per-thread program counter over the hook points, pool mutex, idle "
              "stack, arena creation inside get's critical section -- the MutexGuard is a match-scrutinee temporary -- and, as a second "
-             "variant, outside it; use through the guard; guard drop; PoolReset/PoolResetToStart/PoolDrop). TLC explores every "
+             "variant, outside it; use through the guard; guard drop or mem::forget; PoolReset/PoolResetToStart/PoolDrop). TLC explores every "
              "interleaving of 2-4 threads x 1-3 rounds x 0-2 pool-wide resets and checks: no arena under two owners, idle and held "
              "disjoint, no arena lost or duplicated, arenas created (or being created) <= peak number of simultaneous owners (owner = "
              "from the pop / decision to create in get's critical section to the push in drop's critical section; TLC refutes the "
@@ -29,7 +29,7 @@ CLAIMS = {
         note="Trusted: TLC; the harness as scheduler/recorder (threads are parked only at the hook points, the allocator-clone point and "
              "harness points); the instrumented base allocator (quarantines instead of freeing, so blocks can be re-read). Bounds: "
              "exhaustive model checking up to 4 threads x 2 rounds / 3 threads x 3 rounds; recorded runs up to 8 threads. Not covered: "
-             "mem::forget of a guard, panics inside get (poisoned mutex), reads of freed memory that happen to see the old contents.",
+             "a poisoned pool mutex (panic while it is held), reads of freed memory that happen to see the old contents.",
         technique="TLA+ spec (Pool.tla) model-checked with TLC (safety, action properties, liveness) + TLC-generated schedules forced on "
                   "real threads + TLC trace validation (PoolTrace.tla) and contract evaluation (PoolContract.tla) of every recorded execution",
         engine="pool"),
